@@ -164,7 +164,8 @@ def _tlc_raw(module, cfg=None, workers=8, simulate=None, depth=None, env=None, t
     """Run TLC on spec/<module>.tla with spec/<cfg>. Returns TlcResult."""
     specdir = specdir or SPEC
     res = TlcResult()
-    meta = os.path.join(CACHE, "tlc", "%s-%d-%d" % (module, os.getpid(), int(time.time() * 1000) % 100000000))
+    import uuid
+    meta = os.path.join(CACHE, "tlc", "%s-%d-%s" % (module, os.getpid(), uuid.uuid4().hex[:12]))
     os.makedirs(meta, exist_ok=True)
     jopts = "-Xss256m"
     if dfs:
